@@ -267,6 +267,25 @@ def pairOpCost (nm : Bool) : Nat :=
 /-- BODY up to the point where the chosen case starts: `a`, `1`, `i`, two quotes, `(l 5)`, `APPLY_COST` -/
 def dispatchCost (nm : Bool) : Nat := 229 + listpCost nm + ifCost nm
 
+/-- the cost of BODY in the environment `(BODY T)` -/
+def bodyCost (nm : Bool) : Tree → Nat
+  | .atom b => dispatchCost nm + 73 + atomOpCost nm b.length
+  | .pair l r => dispatchCost nm + 799 + bodyCost nm r + bodyCost nm l + pairOpCost nm
+/-- pairs allocated by BODY in the environment `(BODY T)` (argument lists and `c`) -/
+def pairsUsed : Tree → Nat
+  | .atom _ => 8
+  | .pair l r => 25 + pairsUsed r + pairsUsed l
+/-- nodes of a tree = atoms allocated by BODY (one 32-byte hash per node) -/
+def nodes : Tree → Nat
+  | .atom _ => 1
+  | .pair l r => 1 + nodes r + nodes l
+def depth : Tree → Nat
+  | .atom _ => 0
+  | .pair l r => 1 + max (depth l) (depth r)
+
+theorem bump_congr (c : Ctr) {a p h a' p' h' : Nat} (h1 : a = a') (h2 : p = p') (h3 : h = h') :
+    c.bump a p h = c.bump a' p' h' := by subst h1 h2 h3; rfl
+
 /-! ### the program as a value -/
 
 namespace ShaTree
@@ -475,7 +494,241 @@ theorem body_dispatch_le {X : Val} {c0 : Ctr} {cost0 : Nat} {v : Val} {cost2 : N
     hi (newPair_bump _ (by simp only [Ctr.bump]; omega))
     (by rw [e1, e2]; exact hcase) hfin
 
+/-- **BODY computes the tree hash.**  In the environment `(BODY X)`, for every well-formed value `X`
+(any atom representation), from any cost, counters and stack heights that leave enough room. -/
+theorem body_le (X : Val) : X.wf = true → ∀ (vl el : Nat) (c0 : Ctr) (cost0 : Nat),
+    vl + 4 * depth X.erase + 12 ≤ Gen.STACK_SIZE_LIMIT → el + depth X.erase + 4 ≤ Gen.STACK_SIZE_LIMIT →
+    c0.pairs + pairsUsed X.erase ≤ Gen.maxNumPairs → c0.atoms + nodes X.erase ≤ Gen.maxNumAtoms →
+    c0.heap + 32 * nodes X.erase ≤ c0.heapLimit →
+    cost0 + bodyCost (newModel F) X.erase ≤ mc →
+    EvalsLe cfg (D) mc [] vl el bodyV (.pair bodyV (.pair X Val.nil)) c0 cost0
+      (Val.mkAtom (TreeHash.treeHash X.erase)) (cost0 + bodyCost (newModel F) X.erase)
+      (c0.bump (nodes X.erase) (pairsUsed X.erase) (32 * nodes X.erase)) := by
+  induction X with
+  | atom b t =>
+    intro hw vl el c0 cost0 hvl hel hp ha hh hc
+    simp only [Val.erase, depth, pairsUsed, nodes, bodyCost] at *
+    refine body_dispatch_le (by omega) (by omega) (by omega) ?_ (by omega)
+    simp only [Val.isPair, Bool.false_eq_true, if_false]
+    have hp5 : pathLookup cfg [5] true (.pair bodyV (.pair (.atom b t) Val.nil)) = .ok (52, .atom b t) := by
+      cases cfg with
+      | mk fp => cases fp <;> rfl
+    have hop : (D).op (vN 11) (.pair (vN 1) (.pair (.atom b t) Val.nil))
+        (mc - (cost0 + dispatchCost (newModel F) + 1 + 52 + 20)) .Default ((c0.bump 0 7 0).bump 0 1 0) =
+        some (.ok (atomOpCost (newModel F) b.length, Val.mkAtom (TreeHash.treeHash (.atom b)),
+          ((c0.bump 0 7 0).bump 0 1 0).bump 1 0 32)) := by
+      rw [D_sha]
+      have := opSha256_atom cfg (normFlags F ||| 0) (mc - (cost0 + dispatchCost (newModel F) + 1 + 52 + 20))
+        b t ((c0.bump 0 7 0).bump 0 1 0) hw
+        (by rw [newModel_norm]; unfold atomOpCost at hc; omega)
+        (by simp only [Ctr.bump]; omega) (by simp only [Ctr.bump]; omega)
+      rw [newModel_norm] at this
+      exact congrArg some this
+    have e1 : (c0.bump 0 6 0).bump 0 1 0 = c0.bump 0 7 0 := by simp [bump_bump]
+    exact (op2_le (ob := [11]) (oi := true) (tb := true) (show _ ≠ some 1 by decide) (show _ ≠ some 2 by decide)
+      (show _ ≠ some 36 by decide) (by omega) (by omega)
+      (pathV_le hp5 (by omega)) (newPair_bump _ (by simp only [Ctr.bump]; omega))
+      (by rw [e1]; exact qV_le (by omega)) (newPair_bump _ (by simp only [Ctr.bump]; omega))
+      hop (by show _ ≤ mc; first | omega | (simp only [Gen.OP_COST]; omega))).cast
+      (by first | omega | (simp only [Gen.OP_COST]; omega)) (by simp [bump_bump])
+  | pair l r ihl ihr =>
+    intro hw vl el c0 cost0 hvl hel hp ha hh hc
+    rw [wf_pair] at hw
+    simp only [Val.erase, depth, pairsUsed, nodes, bodyCost] at *
+    refine body_dispatch_le (by omega) (by omega) (by omega) ?_ (by omega)
+    simp only [Val.isPair, if_true]
+    have hp2 : pathLookup cfg [2] true (.pair bodyV (.pair (.pair l r) Val.nil)) = .ok (48, bodyV) := by
+      cases cfg with
+      | mk fp => cases fp <;> rfl
+    have hp9 : pathLookup cfg [9] true (.pair bodyV (.pair (.pair l r) Val.nil)) = .ok (56, l) := by
+      cases cfg with
+      | mk fp => cases fp <;> rfl
+    have hp13 : pathLookup cfg [13] true (.pair bodyV (.pair (.pair l r) Val.nil)) = .ok (56, r) := by
+      cases cfg with
+      | mk fp => cases fp <;> rfl
+    -- abbreviations for the accumulated costs
+    generalize hK : cost0 + dispatchCost (newModel F) = K at *
+    -- the right sub-tree (third operand, evaluated first)
+    have hr := ihr hw.2 (vl + 4) (el + 1) ((c0.bump 0 6 0).bump 0 8 0) (K + 1 + 333 + 56) (by omega) (by omega)
+      (by simp only [Ctr.bump]; omega) (by simp only [Ctr.bump]; omega) (by simp only [Ctr.bump]; omega)
+      (by omega)
+    have hR := recCall_le (p := 13) (cost0 := K + 1) hp2 hp13 (by omega) (by omega)
+      (by simp only [Ctr.bump]; omega) hr (by omega)
+    -- the left sub-tree
+    have hl := ihl hw.1 (vl + 3) (el + 1)
+      (((((c0.bump 0 6 0).bump 0 8 0).bump (nodes r.erase) (pairsUsed r.erase) (32 * nodes r.erase)).bump 0 1 0).bump
+        0 8 0)
+      (K + 1 + 333 + 56 + bodyCost (newModel F) r.erase + 333 + 56) (by omega) (by omega)
+      (by simp only [Ctr.bump]; omega) (by simp only [Ctr.bump]; omega) (by simp only [Ctr.bump]; omega)
+      (by omega)
+    have hL := recCall_le (p := 9) (cost0 := K + 1 + 333 + 56 + bodyCost (newModel F) r.erase) hp2 hp9
+      (by omega) (by omega) (by simp only [Ctr.bump]; omega) hl (by omega)
+    have hop : (D).op (vN 11)
+        (.pair (vN 2) (.pair (Val.mkAtom (TreeHash.treeHash l.erase))
+          (.pair (Val.mkAtom (TreeHash.treeHash r.erase)) Val.nil)))
+        (mc - (K + 1 + 333 + 56 + bodyCost (newModel F) r.erase + 333 + 56 + bodyCost (newModel F) l.erase + 20))
+        .Default
+        ((c0.bump (nodes r.erase + nodes l.erase) (24 + pairsUsed r.erase + pairsUsed l.erase)
+          (32 * nodes r.erase + 32 * nodes l.erase)).bump 0 1 0) =
+        some (.ok (pairOpCost (newModel F),
+          Val.mkAtom (TreeHash.treeHash (.pair l.erase r.erase)),
+          ((c0.bump (nodes r.erase + nodes l.erase) (24 + pairsUsed r.erase + pairsUsed l.erase)
+            (32 * nodes r.erase + 32 * nodes l.erase)).bump 0 1 0).bump 1 0 32)) := by
+      rw [D_sha]
+      have := opSha256_pair cfg (normFlags F ||| 0)
+        (mc - (K + 1 + 333 + 56 + bodyCost (newModel F) r.erase + 333 + 56 + bodyCost (newModel F) l.erase + 20))
+        (TreeHash.treeHash l.erase) (TreeHash.treeHash r.erase)
+        ((c0.bump (nodes r.erase + nodes l.erase) (24 + pairsUsed r.erase + pairsUsed l.erase)
+          (32 * nodes r.erase + 32 * nodes l.erase)).bump 0 1 0)
+        (treeHash_len32 _) (treeHash_len32 _)
+        (by rw [newModel_norm]; unfold pairOpCost at hc; omega)
+        (by simp only [Ctr.bump]; omega) (by simp only [Ctr.bump]; omega)
+      rw [newModel_norm] at this
+      exact congrArg some this
+    have e1 : ((((((c0.bump 0 6 0).bump 0 8 0).bump (nodes r.erase) (pairsUsed r.erase) (32 * nodes r.erase)).bump 0 1
+        0).bump 0 8 0).bump (nodes l.erase) (pairsUsed l.erase) (32 * nodes l.erase)).bump 0 1 0 =
+        c0.bump (nodes r.erase + nodes l.erase) (24 + pairsUsed r.erase + pairsUsed l.erase)
+          (32 * nodes r.erase + 32 * nodes l.erase) := by
+      simp only [bump_bump]
+      exact bump_congr _ (by omega) (by omega) (by omega)
+    exact (op3_le (ob := [11]) (oi := true) (tb := true) (show _ ≠ some 1 by decide) (show _ ≠ some 2 by decide)
+      (show _ ≠ some 36 by decide) (by omega) (by omega)
+      hR (newPair_bump _ (by simp only [Ctr.bump]; omega))
+      hL (newPair_bump _ (by simp only [Ctr.bump]; omega))
+      (by rw [e1]; exact qV_le (by omega)) (newPair_bump _ (by simp only [Ctr.bump]; omega))
+      hop (by show _ ≤ mc; omega)).cast
+      (by omega) (by simp only [bump_bump]; exact bump_congr _ (by omega) (by omega) (by omega))
+
+/-- cost of the whole program on the tree `t`: 607 for the wrapper `(a (q . MAIN) (c (q . BODY) 1))` and MAIN -/
+def progCost (nm : Bool) (t : Tree) : Nat := 607 + bodyCost nm t
+
+/-- **The whole program** in the environment `T` -/
+theorem prog_le (T : Val) (hw : T.wf = true) (vl el : Nat) (c0 : Ctr) (cost0 : Nat)
+    (hvl : vl + 4 * depth T.erase + 22 ≤ Gen.STACK_SIZE_LIMIT)
+    (hel : el + depth T.erase + 7 ≤ Gen.STACK_SIZE_LIMIT)
+    (hp : c0.pairs + 13 + pairsUsed T.erase ≤ Gen.maxNumPairs)
+    (ha : c0.atoms + nodes T.erase ≤ Gen.maxNumAtoms)
+    (hh : c0.heap + 32 * nodes T.erase ≤ c0.heapLimit)
+    (hc : cost0 + progCost (newModel F) T.erase ≤ mc) :
+    EvalsLe cfg (D) mc [] vl el progV T c0 cost0
+      (Val.mkAtom (TreeHash.treeHash T.erase)) (cost0 + progCost (newModel F) T.erase)
+      (c0.bump (nodes T.erase) (13 + pairsUsed T.erase) (32 * nodes T.erase)) := by
+  unfold progCost at *
+  have hp1 : pathLookup cfg [1] true T = .ok (44, T) := by
+    cases cfg with
+    | mk fp => cases fp <;> rfl
+  have hp2 : pathLookup cfg [2] true (.pair bodyV T) = .ok (48, bodyV) := by
+    cases cfg with
+    | mk fp => cases fp <;> rfl
+  have hp3 : pathLookup cfg [3] true (.pair bodyV T) = .ok (48, T) := by
+    cases cfg with
+    | mk fp => cases fp <;> rfl
+  -- `(c (q . BODY) 1)`
+  have h1 : EvalsLe cfg (D) mc [] (vl + 3) (el + 1) (consV (qV bodyV) (vN 1)) T c0 (cost0 + 1)
+      (.pair bodyV T) (cost0 + 116) (c0.bump 0 3 0) := by
+    refine (consV_le (vl := vl + 3) (el := el + 1) (by omega) (by omega)
+      (pathV_le hp1 (by omega)) (by omega) (qV_le (by omega)) (by simp only [Ctr.bump]; omega)
+      (by omega)).cast (by omega) (by simp [bump_bump])
+  -- BODY on `T`
+  have hb := body_le (cfg := cfg) (extra := extra) (F := F) (mc := mc) T hw vl el (c0.bump 0 13 0)
+    (cost0 + 607) (by omega) (by omega) (by simp only [Ctr.bump]; omega) (by simp only [Ctr.bump]; omega)
+    (by simp only [Ctr.bump]; omega) (by omega)
+  -- MAIN `= (a 2 (c 2 (c 3 ())))` in the environment `(BODY . T)`
+  have e0 : (c0.bump 0 5 0).bump 0 8 0 = c0.bump 0 13 0 := by simp [bump_bump]
+  have hmain : EvalsLe cfg (D) mc [] vl el (recCallV 3) (.pair bodyV T) (c0.bump 0 5 0) (cost0 + 226)
+      (Val.mkAtom (TreeHash.treeHash T.erase)) (cost0 + 607 + bodyCost (newModel F) T.erase)
+      ((c0.bump 0 13 0).bump (nodes T.erase) (pairsUsed T.erase) (32 * nodes T.erase)) := by
+    have e3 : cost0 + 226 + 333 + 48 = cost0 + 607 := by omega
+    exact recCall_le (p := 3) hp2 hp3 (by omega) (by omega) (by simp only [Ctr.bump]; omega)
+      (by rw [e0, e3]; exact hb) (by omega)
+  have e1 : ((c0.bump 0 3 0).bump 0 1 0).bump 0 1 0 = c0.bump 0 5 0 := by simp [bump_bump]
+  have e2 : cost0 + 116 + 20 + Gen.APPLY_COST = cost0 + 226 := by simp only [Gen.APPLY_COST]
+  exact (apply2_le (ob := [2]) (oi := true) (tb := true) (show _ ≠ some 1 by decide) (show _ = some 2 by decide)
+    (by omega) (by omega) h1 (newPair_bump _ (by simp only [Ctr.bump]; omega))
+    (qV_le (by omega)) (newPair_bump _ (by simp only [Ctr.bump]; omega))
+    (by rw [e1, e2]; exact hmain) (by show _ ≤ mc; omega)).cast (by omega)
+    (by simp only [bump_bump]; exact bump_congr _ (by omega) (by omega) (by omega))
+
+/-- … and as a run of `run_program` from the initial state (counters `c0`, budget `mc0`, 0 = unlimited) -/
+theorem prog_runs (T : Val) (hw : T.wf = true) (c0 : Ctr) (mc0 : Nat)
+    (hd : 4 * depth T.erase + 22 ≤ Gen.STACK_SIZE_LIMIT)
+    (hp : c0.pairs + 13 + pairsUsed T.erase ≤ Gen.maxNumPairs)
+    (ha : c0.atoms + 1 + nodes T.erase ≤ Gen.maxNumAtoms)
+    (hh : c0.heap + 32 * nodes T.erase ≤ c0.heapLimit)
+    (hc : progCost (newModel F) T.erase ≤ (if mc0 == 0 then U64_MAX else mc0)) :
+    ∃ fuel0, ∀ fuel, fuel0 ≤ fuel →
+      runProgram cfg (D) fuel c0 progV T mc0 =
+        some (.ok (progCost (newModel F) T.erase, Val.mkAtom (TreeHash.treeHash T.erase),
+          c0.bump (1 + nodes T.erase) (13 + pairsUsed T.erase) (32 * nodes T.erase))) := by
+  have hg : c0.addGhostAtom 1 = .ok (c0.bump 1 0 0) := by
+    unfold Ctr.addGhostAtom Ctr.bump
+    have : ¬ Gen.maxNumAtoms - c0.atoms < 1 := by omega
+    simp only [this, if_false, Nat.add_zero]
+  have h := prog_le (cfg := cfg) (extra := extra) (F := F) (mc := if mc0 == 0 then U64_MAX else mc0) T hw 0 0
+    (c0.bump 1 0 0) 0 (by omega) (by have := depth T.erase; omega) (by simp only [Ctr.bump]; omega)
+    (by simp only [Ctr.bump]; omega) (by simp only [Ctr.bump]; omega) (by omega)
+  have h' := h.1
+  rw [Nat.zero_add, bump_bump] at h'
+  have e : c0.bump (1 + nodes T.erase) (0 + (13 + pairsUsed T.erase)) (0 + 32 * nodes T.erase) =
+      c0.bump (1 + nodes T.erase) (13 + pairsUsed T.erase) (32 * nodes T.erase) :=
+    bump_congr _ rfl (by omega) (by omega)
+  rw [e] at h'
+  exact runProgram_of_Evals hg h' hc
+
 end dialect
+
+/-! ### closed forms -/
+
+/-- cost per pair of the tree -/
+def pairCoeff (nm : Bool) : Nat := dispatchCost nm + 799 + pairOpCost nm
+/-- cost per atom of the tree (without its bytes) -/
+def atomCoeff (nm : Bool) : Nat :=
+  dispatchCost nm + 73 + shaBase nm + 2 * shaArg nm + shaByte nm + 32 * Gen.MALLOC_COST_PER_BYTE
+
+theorem coeff_values :
+    pairCoeff false = 2019 ∧ atomCoeff false = 1031 ∧ shaByte false = 2 ∧
+    pairCoeff true = 3748 ∧ atomCoeff true = 2478 ∧ shaByte true = 6 := by decide
+
+theorem bodyCost_closed (nm : Bool) (t : Tree) :
+    bodyCost nm t = pairCoeff nm * t.pairs + atomCoeff nm * t.atoms + shaByte nm * TreeHash.sumLen t := by
+  obtain ⟨h1, h2, h3, h4, h5, h6⟩ := coeff_values
+  induction t with
+  | atom b =>
+    cases nm
+    · have : bodyCost false (.atom b) = 1031 + 2 * b.length := by
+        simp only [bodyCost, dispatchCost, atomOpCost, listpCost, ifCost, shaBase, shaArg, shaByte,
+          Bool.false_eq_true, if_false, Gen.LISTP_COST, Gen.IF_COST, Gen.SHA256_BASE_COST, Gen.SHA256_COST_PER_ARG,
+          Gen.SHA256_COST_PER_BYTE, Gen.MALLOC_COST_PER_BYTE]
+        omega
+      rw [this, h1, h2, h3]; simp only [Tree.pairs, Tree.atoms, TreeHash.sumLen] <;> omega
+    · have : bodyCost true (.atom b) = 2478 + 6 * b.length := by
+        simp only [bodyCost, dispatchCost, atomOpCost, listpCost, ifCost, shaBase, shaArg, shaByte,
+          if_true, Gen.NEW_LISTP_COST, Gen.NEW_IF_COST, Gen.NEW_SHA256_BASE_COST, Gen.NEW_SHA256_COST_PER_ARG,
+          Gen.NEW_SHA256_COST_PER_BYTE, Gen.MALLOC_COST_PER_BYTE]
+        omega
+      rw [this, h4, h5, h6]; simp only [Tree.pairs, Tree.atoms, TreeHash.sumLen] <;> omega
+  | pair l r ihl ihr =>
+    have hp : bodyCost nm (.pair l r) = pairCoeff nm + bodyCost nm r + bodyCost nm l := by
+      simp only [bodyCost, pairCoeff]; omega
+    rw [hp, ihl, ihr]
+    cases nm
+    · rw [h1, h2, h3]; simp only [Tree.pairs, Tree.atoms, TreeHash.sumLen]; omega
+    · rw [h4, h5, h6]; simp only [Tree.pairs, Tree.atoms, TreeHash.sumLen]; omega
+
+theorem pairsUsed_closed (t : Tree) : pairsUsed t = 25 * t.pairs + 8 * t.atoms := by
+  induction t with
+  | atom b => simp [pairsUsed, Tree.pairs, Tree.atoms]
+  | pair l r ihl ihr => simp only [pairsUsed, Tree.pairs, Tree.atoms, ihl, ihr]; omega
+
+theorem nodes_closed (t : Tree) : nodes t = t.pairs + t.atoms := by
+  induction t with
+  | atom b => simp [nodes, Tree.pairs, Tree.atoms]
+  | pair l r ihl ihr => simp only [nodes, Tree.pairs, Tree.atoms, ihl, ihr]; omega
+
+theorem depth_le_pairs (t : Tree) : depth t ≤ t.pairs := by
+  induction t with
+  | atom b => simp [depth]
+  | pair l r ihl ihr => simp only [depth, Tree.pairs]; omega
 
 end ShaTree
 
